@@ -50,9 +50,11 @@ structure PlaceInv (m : Model) (l : Live) : Prop where
   /-- the space taken by the components placed at a workplace is within its capacity -/
   cap : ∀ q, q < m.nWp →
     sumList ((l.wpComps q).map fun c => (m.comp c).size) ≤ (m.wp q).cap
-  /-- a facility held by a task belongs to the workplace where the task's component is placed -/
+  /-- a facility held by a task belongs to (and is listed by) the workplace where the task's
+  component is placed -/
   site : ∀ t, t < m.nT → ∀ f ∈ l.allocF t,
-    ∃ c, (m.task t).comp = some c ∧ l.placed c = some (m.fac f).wp
+    ∃ c, (m.task t).comp = some c ∧ l.placed c = some (m.fac f).wp ∧
+      f ∈ (m.wp (m.fac f).wp).facs
 
 /-- The invariant carried through the loop: `PlaceInv` and three facts about held facilities. -/
 structure Inv (m : Model) (l : Live) : Prop extends PlaceInv m l where
@@ -420,8 +422,8 @@ theorem Inv_removeOne (wf : PlaceWF m) {l : Live} (h : Inv m l) (c : Nat) (hc : 
           (sumList_map_erase_le (fun c => (m.comp c).size) c _ (wf.size_nonneg c hc)) (h.cap q hq)
       · exact h.cap q hq
     · intro t ht f hf
-      obtain ⟨c', hc1, hc2⟩ := h.site t ht f hf
-      refine ⟨c', hc1, ?_⟩
+      obtain ⟨c', hc1, hc2, hc3⟩ := h.site t ht f hf
+      refine ⟨c', hc1, ?_, hc3⟩
       show upd l.placed c Option.none c' = some (m.fac f).wp
       by_cases e : c' = c
       · exfalso
@@ -700,8 +702,8 @@ theorem Inv_moveComp (wf : PlaceWF m) {l : Live} (h : Inv m l) {c p : Nat} (hc :
         (sumList_map_erase_le (fun c => (m.comp c).size) c _ (wf.size_nonneg c hc)) (h.cap q hq)
   · intro t ht f hf
     rw [eF] at hf
-    obtain ⟨c', hc1, hc2⟩ := h.site t ht f hf
-    refine ⟨c', hc1, ?_⟩
+    obtain ⟨c', hc1, hc2, hc3⟩ := h.site t ht f hf
+    refine ⟨c', hc1, ?_, hc3⟩
     rw [eP]
     by_cases e : c' = c
     · exfalso; subst e
@@ -766,7 +768,8 @@ theorem Inv_giveF (wf : PlaceWF m) {l : Live} (h : Inv m l) (t f c p : Nat)
     rcases hmem t' f' hf' with hh | ⟨e1, e2⟩
     · exact h.site t' ht' f' hh
     · subst e1; subst e2
-      exact ⟨c, hcomp, by rw [wf.fac_wp p hp f' hf]; exact hpl⟩
+      have e := wf.fac_wp p hp f' hf
+      exact ⟨c, hcomp, by rw [e]; exact hpl, by rw [e]; exact hf⟩
   · intro t' ht' hfin
     by_cases e : t' = t
     · subst e; exact absurd hfin hts
@@ -1150,6 +1153,138 @@ theorem Inv_initProject (wf : PlaceWF m) (logInfo : Bool) (s : St) :
   · intro t ht hne; exact absurd (initProject_allocF m logInfo s t ht) hne
 
 end blocks
+
+/-! ### removal and movement at the level of `__update` / one step -/
+
+section steps
+variable (m : Model)
+
+/-- after `__update`, a top-level component all of whose tasks are FINISHED is not placed -/
+theorem update_removed (time : Nat) (l : Live) (c : Nat) (hc : c < m.nC)
+    (hpar : (m.comp c).parents = [])
+    (hfin : ∀ t ∈ (m.comp c).tasks, (update m time l).tstate t = .finished) :
+    (update m time l).placed c = Option.none := by
+  have hpl : (update m time l).placed =
+      (chkRemove m (compCheck m (chkFinished m l))).placed := rfl
+  rw [hpl]
+  apply chkRemove_removed m _ c hc hpar
+  intro t ht
+  have h := hfin t ht
+  rw [update_tstate, chkReady_tstate] at h
+  split at h
+  · cases h
+  · exact h
+
+/-- every `updated` state of the loop is the result of an `__update` -/
+theorem updTrace_mem_updated (p : Params) :
+    ∀ fuel s, ∀ s' ∈ updTrace m p fuel s, ∃ s1, s' = updated m s1 := by
+  intro fuel
+  induction fuel with
+  | zero => intro s s' h; simp [updTrace] at h
+  | succ n ih =>
+    intro s s' h
+    simp only [updTrace] at h
+    split at h
+    · simp at h; exact ⟨s, h⟩
+    · rcases List.mem_cons.mp h with h | h
+      · exact ⟨s, h⟩
+      · exact ih _ _ h
+
+theorem stepBody_placed (p : Params) (s : St) :
+    (stepBody m p s).live.placed = (preWorking m p s).placed := by
+  rw [stepBody_live]
+  exact core_placed (chkWorking_core m (preWorking m p s))
+
+/-- **Movement rules of one step.**  A component whose placement differs before and after a
+step was moved by the step's allocation pass (so the step is a working step), exactly once, and
+according to the rules `MovedOk`. -/
+theorem stepBody_moves (p : Params) (s : St) (c : Nat)
+    (h : (stepBody m p s).live.placed c ≠ s.live.placed c) :
+    workingAt p s.time = true ∧
+    c ∈ passMoves m s.logs p.rule (absenceSet m s.time true s.live) ∧
+    (passMoves m s.logs p.rule (absenceSet m s.time true s.live)).Nodup ∧
+    MovedOk m s.live c ((stepBody m p s).live.placed c) := by
+  rw [stepBody_placed] at h ⊢
+  unfold preWorking at h ⊢
+  by_cases hw : (!(p.absence.contains s.time)) = true
+  · rw [if_pos hw] at h ⊢
+    rw [hw] at h ⊢
+    obtain ⟨h1, h2, h3⟩ := allocate_moves m s.logs p.rule (absenceSet m s.time true s.live)
+    exact ⟨hw, h2 c h, h1, h3 c (h2 c h)⟩
+  · rw [if_neg hw] at h
+    exact absurd rfl h
+
+end steps
+
+/-! ### a checker for `PlaceWF` -/
+
+/-- executable form of `PlaceWF` -/
+def placeWFb (m : Model) : Bool :=
+  ((List.range m.nC).all fun c =>
+    (m.comp c).parents.isEmpty && (m.comp c).children.isEmpty && decide (0 ≤ (m.comp c).size)) &&
+  ((List.range m.nWp).all fun q =>
+    decide (0 ≤ (m.wp q).cap) && (m.wp q).facs.all fun f => (m.fac f).wp == q) &&
+  ((List.range m.nT).all fun t =>
+    match (m.task t).comp with
+    | some c => decide (c < m.nC) && (m.comp c).tasks.contains t
+    | Option.none => true)
+
+theorem placeWF_of_b {m : Model} (h : placeWFb m = true) : PlaceWF m := by
+  unfold placeWFb at h
+  simp only [Bool.and_eq_true, List.all_eq_true, List.mem_range, decide_eq_true_eq,
+    List.isEmpty_iff, beq_iff_eq] at h
+  obtain ⟨⟨h1, h2⟩, h3⟩ := h
+  refine ⟨?_, ?_, ?_, ?_, ?_, ?_⟩
+  · intro c hc; exact ⟨(h1 c hc).1.1, (h1 c hc).1.2⟩
+  · intro c hc; exact (h1 c hc).2
+  · intro q hq; exact (h2 q hq).1
+  · intro t ht c hcomp
+    have := h3 t ht; rw [hcomp] at this
+    simp only [Bool.and_eq_true, decide_eq_true_eq] at this
+    exact this.1
+  · intro t ht c hcomp
+    have := h3 t ht; rw [hcomp] at this
+    simp only [Bool.and_eq_true, decide_eq_true_eq] at this
+    simpa using this.2
+  · intro q hq f hf; exact (h2 q hq).2 f hf
+
+/-! ### a small concrete model for the `example`s of C13 -/
+
+/-- Two workplaces on a conveyor (`1` takes components only from `0`), one facility each, room
+for one component each.  Component `0` has task `0` (at workplace 0) then task `1` (at
+workplace 1); component `1` has task `2`, which also needs workplace 0 and has to wait until
+component 0 has moved on.  Two workers who can do everything. -/
+def exP : Model where
+  nT := 3
+  nW := 2
+  nF := 2
+  nTeam := 1
+  nWp := 2
+  nC := 2
+  task := fun t =>
+    match t with
+    | 0 => { name := 0, work := 1, needFac := true, wps := [0], comp := some 0,
+             outputs := [(1, .fs)] }
+    | 1 => { name := 1, work := 1, needFac := true, wps := [1], comp := some 0,
+             inputs := [(0, .fs)] }
+    | _ => { name := 2, work := 1, needFac := true, wps := [0], comp := some 1 }
+  worker := fun _ =>
+    { team := 0, skills := [(0, 1), (1, 1), (2, 1)], facSkills := [(0, 1), (1, 1)] }
+  fac := fun f =>
+    match f with
+    | 0 => { wp := 0, name := 0, skills := [(0, 1), (2, 1)] }
+    | _ => { wp := 1, name := 1, skills := [(1, 1)] }
+  team := fun _ => { workers := [0, 1], targets := [0, 1, 2] }
+  wp := fun q =>
+    match q with
+    | 0 => { facs := [0], targets := [0, 2], cap := 1, outputs := [1] }
+    | _ => { facs := [1], targets := [1], cap := 1, inputs := [0] }
+  comp := fun c =>
+    match c with
+    | 0 => { tasks := [0, 1], size := 1 }
+    | _ => { tasks := [2], size := 1 }
+
+theorem exP_wf : PlaceWF exP := placeWF_of_b (by decide +kernel)
 
 end Place
 end PDesy
